@@ -122,6 +122,8 @@ func (c *Cache) downloadDir(m module.Version) (string, error) {
 		return dir, &downloadDirPartialError{dir, errors.New("not a directory")}
 	}
 
+	verifhook.At("downloaddir.between-stats")
+
 	// Check if a .partial file exists. This is created at the beginning of
 	// a download and removed after the zip is extracted.
 	partialPath, err := c.cachePath(m, "partial")
